@@ -6,4 +6,4 @@ cd "$VERIF_ROOT" || exit 2
 pat="${1:-.}"
 grep -E "$pat" mutants/MAP.tsv | while IFS=$'\t' read -r patch props desc; do
   for p in ${props//,/ }; do echo "$patch $p"; done
-done | xargs -P 4 -L 1 bash -c 'scripts/mutant.sh mutants/$0 $1 ${SENS_TIER:-quick}'
+done | xargs -P 4 -L 1 bash -c 'if [ "${1%+reconn}" != "$1" ]; then DST_C05_RECONN=1 scripts/mutant.sh mutants/$0 ${1%+reconn} ${SENS_TIER:-quick} | sed "s#by C05/#by C05+reconn/#; s#vs C05/#vs C05+reconn/#"; else scripts/mutant.sh mutants/$0 $1 ${SENS_TIER:-quick}; fi'
